@@ -91,6 +91,14 @@ def c06_batches(tier):
                     weight=20 if q else 200))
         bs.append(B("conc-threads-%s-optim-asan" % be, "conc", be, "optim-asan", 10 if q else 300, spec="swarm:6", specpool=2, nkeys=1, maxw=5, threadrun=1, psetup=1.0,
                     weight=20 if q else 200, max_procs=2))
+    # cold processes: one process per run that has never touched the FFT layer (keys, inputs and the sequential reference come from
+    # a forked helper); a loader task imports the key, then the tasks' first transforms are the first ones of the process.  The
+    # library's calls of sin/cos/sincos (twiddle tables being computed) are scheduling points.
+    for be in BACKENDS:
+        bs.append(B("conc-cold-%s-optim" % be, "conc", be, "optim", 40 if q else 1500, spec="swarm:12", specpool=3, nkeys=1, maxw=6, cold=1, fork=1,
+                    weight=15 if q else 150, det_count=4))
+        bs.append(B("conc-cold-%s-debug" % be, "conc", be, "debug", 12 if q else 300, spec="swarm:8", specpool=2, nkeys=1, maxw=5, cold=1, fork=1,
+                    weight=15 if q else 150, det_count=2))
     # auxiliary: free-running threads under ThreadSanitizer (races inside straight-line code cannot be scheduled at interposed calls)
     for be in (["spqlios-fma", "nayuki-portable", "fftw"] if q else BACKENDS):
         bs.append(B("stress-tsan-%s" % be, "stress", be, "optim-tsan", 4 if q else 200, spec="swarm:6", specpool=2, nkeys=1, maxw=8, weight=25 if q else 250,
@@ -528,7 +536,7 @@ RECIPES = {
         "rule": "one run = W in 1..64 simulated tasks (real pthreads, exactly one runnable at a time) evaluating seeded lists of gates / bootstrappings on "
                 "shared inputs with one shared cloud key into private outputs, under a seeded schedule (random walk with p in {1%,10%,30%,100%} or "
                 "PCT priorities, random subset of 14 yield-site classes: FFT transform windows, decomposition, external product, CMux, modulus "
-                "switch, key switch, gate linear combination, planner, mutex), optional histories on the same thread before the measured op (FFT "
+                "switch, key switch, gate linear combination, planner, mutex, twiddle-table computation i.e. the library's sin/cos calls), optional histories on the same thread before the measured op (FFT "
                 "products of extreme polynomials, gate under another key, key generation, key import), thread churn (every op in a short-lived "
                 "child thread) and a loader thread that imports the key and exits. non-trivial = at least one preemption; distinct = hash of "
                 "(spec, W, op lists, context-switch sequence)",
